@@ -231,122 +231,6 @@ fn malformed_strings(ctx: &Ctx) {
     }
 }
 
-fn cli_layer(ctx: &Ctx) {
-    let mut rng = Rng::fork(ctx.seed, "C15-cli");
-    let wd = WorkDir::new("c15");
-    for i in 0..ctx.tier.pick(4, 30) {
-        let key = rng.arr32();
-        let pw = if i % 3 == 0 { "".to_string() } else { format!("cli-p\u{e4}ss-{}", i) };
-        let locked = refspec::lock_sk(&key, pw.as_bytes(), &rng.arr32());
-        let want = format!("PublicKey = {}", refspec::encode_pk(&refspec::pubkey_of(&key)));
-        let o = Cmd::new(&wd.path, &["key", "extract-pub", &locked, "--env-pass"]).pass(&pw).run();
-        ctx.eval();
-        let case = || json!({"command": format!("kestrel key extract-pub {} --env-pass", locked), "password": pw, "exit": o.exit.describe(), "stdout": o.stdout_s(), "stderr": o.stderr_s(), "want": want});
-        if o.exit == Exit::Code(0) && o.stdout_s().trim() == want {
-            ctx.seen("cli: spec-made locked key -> extract-pub prints the reference public key");
-            ctx.distinct(&format!("cli|ok|{}", i));
-        } else if o.exit == Exit::Timeout {
-            ctx.inconclusive("C15 cli: timeout");
-        } else {
-            ctx.violation("C15:cli:extract-pub-of-conforming-key-fails-or-differs", case());
-        }
-        let mut blob = unb64(&locked).unwrap();
-        let bit = rng.range(0, 84 * 8 - 1);
-        blob[bit / 8] ^= 1 << (bit % 8);
-        let bad = b64(&blob);
-        let o = Cmd::new(&wd.path, &["key", "extract-pub", &bad, "--env-pass"]).pass(&pw).run();
-        ctx.eval();
-        if o.exit == Exit::Code(1) && o.has_error_line() && o.stdout.is_empty() {
-            ctx.seen("cli: altered locked key -> exit 1");
-            ctx.distinct(&format!("cli|bad|{}", i));
-        } else {
-            ctx.violation("C15:cli:altered-locked-key-accepted-or-abnormal-exit", json!({"bit": bit, "exit": o.exit.describe(), "stdout": o.stdout_s(), "stderr": o.stderr_s()}));
-        }
-    }
-}
-
-/// The password reaches lock/unlock through the tool's input layer: exact bytes in, exact bytes used.
-fn cli_password_edges(ctx: &Ctx) {
-    let mut rng = Rng::fork(ctx.seed, "C15-cli-edges");
-    let wd = WorkDir::new("c15e");
-    let pws: Vec<String> = vec!["".into(), "alice".into(), "alice\n".into(), "alice\r\n".into(), "alice ".into(), " alice".into(), "\n".into(), "tab\t".into(), "wide\u{3000}".into()];
-    for (i, w) in pws.iter().enumerate() {
-        let key = rng.arr32();
-        let locked = refspec::lock_sk(&key, w.as_bytes(), &rng.arr32());
-        let want = format!("PublicKey = {}", refspec::encode_pk(&refspec::pubkey_of(&key)));
-        // exact password: must unlock
-        let o = Cmd::new(&wd.path, &["key", "extract-pub", &locked, "--env-pass"]).pass(w).run();
-        ctx.eval();
-        if o.exit == Exit::Code(0) && o.stdout_s().trim() == want {
-            ctx.seen("cli: key locked under a whitespace-edged password unlocks with exactly that password");
-            ctx.distinct(&format!("edge|ok|{}", i));
-        } else {
-            ctx.violation("C15:cli:conforming-key-does-not-unlock-with-its-exact-password", json!({"password_hex": hex(w.as_bytes()), "exit": o.exit.describe(), "stderr": o.stderr_s()}));
-        }
-        // near misses: must not unlock
-        let mut near: Vec<String> = vec![format!("{}\n", w), format!("{}\r\n", w), format!("{} ", w), w.trim_end().to_string(), w.trim().to_string(), format!("{}\n\n", w)];
-        near.retain(|n| n != w && refspec::hmac_norm(n.as_bytes()) != refspec::hmac_norm(w.as_bytes()));
-        near.dedup();
-        for n in near {
-            let o = Cmd::new(&wd.path, &["key", "extract-pub", &locked, "--env-pass"]).pass(&n).run();
-            ctx.eval();
-            if o.exit == Exit::Code(1) && o.stdout.is_empty() {
-                ctx.seen("cli: near-miss password does not unlock");
-                ctx.distinct(&format!("edge|near|{}|{}", i, hex(n.as_bytes())));
-            } else {
-                ctx.violation("C15:cli:different-password-unlocks", json!({"locked_under_hex": hex(w.as_bytes()), "offered_hex": hex(n.as_bytes()), "exit": o.exit.describe(), "stdout": o.stdout_s()}));
-            }
-        }
-        // the same key inside a keyring: encrypt -f / decrypt -t with another password must fail and write nothing
-        {
-            let me = crate::cli::Ident { name: "me".into(), sk: key, pk: refspec::pubkey_of(&key), password: w.clone(), locked: locked.clone(), encoded_pk: refspec::encode_pk(&refspec::pubkey_of(&key)) };
-            let peer = crate::cli::Ident::new("peer", "peer-pw", &mut rng);
-            wd.write("kr.txt", crate::cli::keyring_text(&[(&me, true), (&peer, true)]).as_bytes());
-            wd.write("m.txt", b"message");
-            let tome = refspec::encode_key_file(&peer.sk, &peer.pk, &me.pk, &rng.arr32(), &rng.arr32(), b"for me", &[6]).unwrap();
-            wd.write("tome.ktl", &tome);
-            let near_a = format!("{}\n", w);
-            let near_b = format!("{} ", w);
-            let near_c = w.trim_end().to_string();
-            let near_d = w.to_uppercase();
-            for wrong in ["wrong", "", " ", "x", near_a.as_str(), near_b.as_str(), near_c.as_str(), near_d.as_str()] {
-                if wrong == w || refspec::hmac_norm(wrong.as_bytes()) == refspec::hmac_norm(w.as_bytes()) {
-                    continue;
-                }
-                let _ = std::fs::remove_file(wd.file("o.ktl"));
-                let _ = std::fs::remove_file(wd.file("o.txt"));
-                let e = Cmd::new(&wd.path, &["encrypt", "m.txt", "-t", "peer", "-f", "me", "-o", "o.ktl", "-k", "kr.txt", "--env-pass"]).pass(wrong).run();
-                let d = Cmd::new(&wd.path, &["decrypt", "tome.ktl", "-t", "me", "-o", "o.txt", "-k", "kr.txt", "--env-pass"]).pass(wrong).run();
-                ctx.eval();
-                if e.exit == Exit::Code(1) && d.exit == Exit::Code(1) && !wd.file("o.ktl").exists() && !wd.file("o.txt").exists() {
-                    ctx.seen("cli: keyring key does not unlock for encrypt/decrypt under another password");
-                    ctx.distinct(&format!("edge|keyring|{}|{}", i, wrong));
-                } else {
-                    ctx.violation("C15:cli:keyring-key-unlocks-under-a-different-password", json!({"locked_under_hex": hex(w.as_bytes()), "offered": wrong, "encrypt_exit": e.exit.describe(), "decrypt_exit": d.exit.describe(), "encrypt_stderr": e.stderr_s(), "decrypt_stderr": d.stderr_s()}));
-                }
-            }
-            // and with the right one it works
-            let e = Cmd::new(&wd.path, &["encrypt", "m.txt", "-t", "peer", "-f", "me", "-k", "kr.txt", "--env-pass"]).pass(w).run();
-            ctx.eval();
-            if !(e.exit == Exit::Code(0) && matches!(refspec::decode_key_file(&e.stdout, &peer.sk, &peer.pk), Ok(d) if d.sender == me.pk)) {
-                ctx.violation("C15:cli:keyring-key-does-not-unlock-under-its-own-password", json!({"password_hex": hex(w.as_bytes()), "exit": e.exit.describe(), "stderr": e.stderr_s()}));
-            }
-        }
-        // change-pass TO this password, then unlock with exactly it (reference and tool)
-        let start = refspec::lock_sk(&key, b"start", &rng.arr32());
-        let o = Cmd::new(&wd.path, &["key", "change-pass", &start, "--env-pass"]).pass("start").env("KESTREL_NEW_PASSWORD", w).run();
-        ctx.eval();
-        let newl = o.stdout_s().lines().find_map(|l| l.strip_prefix("PrivateKey = ").map(|x| x.trim().to_string())).unwrap_or_default();
-        let ref_ok = refspec::unlock_sk(&newl, w.as_bytes()) == Ok(key);
-        let o2 = Cmd::new(&wd.path, &["key", "extract-pub", &newl, "--env-pass"]).pass(w).run();
-        if o.exit == Exit::Code(0) && ref_ok && o2.exit == Exit::Code(0) && o2.stdout_s().trim() == want {
-            ctx.seen("cli: change-pass to a whitespace-edged password is lossless");
-        } else {
-            ctx.violation("C15:cli:key-locked-by-change-pass-does-not-unlock-with-the-password-given", json!({"new_password_hex": hex(w.as_bytes()), "change_pass_exit": o.exit.describe(), "reference_unlock_ok": ref_ok, "tool_unlock_exit": o2.exit.describe(), "stderr": o2.stderr_s()}));
-        }
-    }
-}
-
 pub fn run(ctx: &Ctx) {
     ctx.rule(
         "the CLI's real lock/unlock code (compiled from /repo/src/cli/src/keyring.rs) against the documented format built on OpenSSL: lock output string-equal to the \
@@ -359,8 +243,7 @@ pub fn run(ctx: &Ctx) {
     bit_flips(ctx);
     wrong_pw(ctx);
     malformed_strings(ctx);
-    cli_layer(ctx);
-    cli_password_edges(ctx);
+    crate::c15cli::cli_lanes(ctx);
     ctx.require("cli: near-miss password does not unlock", 20);
     ctx.require("cli: keyring key does not unlock for encrypt/decrypt under another password", 10);
     ctx.require("cli: change-pass to a whitespace-edged password is lossless", 6);
